@@ -64,7 +64,7 @@ CODE_VERSION = json.load(open(os.path.join(SPEC, "code_version.json")))
 CONFIGS = {
     "quick": dict(
         B=dict(NTx=2, MaxOps=5, MaxM=2, MaxWait=3, Outs='{"ok","mempool","xmempool","invalid"}',
-               ROuts='{"ok","confirmed"}'),
+               ROuts='{"ok","confirmed","invalid"}'),
         S=dict(NP=3, Thrs="{60}", Codes="{1,2}", MaxDelay=1, MaxX=0, MaxDup=1),
         # messages about another hash (reject, getdata), two peers
         S2=dict(NP=2, Thrs="{50,60}", Codes="{1,2,4}", MaxDelay=1, MaxX=2, MaxDup=1),
@@ -73,7 +73,9 @@ CONFIGS = {
         # rescan slice: the rescan finds the tx in a block, relevant by input / by output only / both / not at all
         C=dict(NTx=2, MaxOps=4, MaxM=2, MaxWait=3, Outs='{"ok","invalid"}', ROuts='{"ok"}',
                Rels='{"spend","pay","both","neither"}'),
-        BF=dict(NTx=2, MaxOps=5, MaxM=2, MaxWait=3, Outs='{"ok","mempool","invalid"}', ROuts='{"ok","confirmed"}'),
+        # a rebroadcast attempt of one transaction may also end in a hard error (neither mempool nor confirmed):
+        # the round goes on with the other transactions
+        BF=dict(NTx=2, MaxOps=5, MaxM=2, MaxWait=3, Outs='{"ok","mempool","invalid"}', ROuts='{"ok","confirmed","invalid"}'),
         walks=0, depth=0, keep=10, tries=8),
     "thorough": dict(
         B=dict(NTx=3, MaxOps=5, MaxM=1, MaxWait=3, Outs='{"ok","mempool","invalid"}', ROuts='{"ok","confirmed"}'),
